@@ -21,7 +21,7 @@ CHECKS = {
          "For generated Produces lists, Accept headers (ranges, q-values, parameters, OWS, */*), default-content-type settings and registered-writer sets, the Content-Type and body written by WriteEntity are compared with an executable ranker; decorated spellings and repetitions must agree.",
          "Accept grammar limited to well-formed q-values and full media types plus */* (as the property states).", "DESIGN §6 C05"),
  "C06": ("exploration", "offline event-log checker (order, exactly-once, stack discipline, hand-over identity) over sequential and concurrent histories; race detector on",
-         "Generated filter configurations (0-3 per level; pass/short-circuit/replace/attribute/middleware adapter) are driven by request sequences and 16 concurrent goroutines; the recorded per-request log must be exactly the prefix of [container.., service.., route.., handler] with reversed exits and intact hand-over.",
+         "Generated filter configurations (0-3 per level; pass/short-circuit/replace/attribute/middleware adapter) are driven by request sequences and 16 concurrent goroutines; the recorded per-request log must be exactly the prefix of [container.., service.., route.., handler] with reversed exits and intact hand-over. A fixed scenario adds a filter in the style of http.TimeoutHandler (returns before the chain it started has finished): every element still runs once, in order.",
          "Observation through the filters/handlers themselves (public API).", "DESIGN §6 C06"),
  "C07": ("fault_enumeration", "recording-writer monitor over an enumerated switch/outcome matrix: decode-complete-stream == written log, label and enablement checks, identity twin",
          "Enumerates entry point x container switch x route override x Accept-Encoding x pre-set Content-Encoding x provider x outcome kind (success, routing errors, panic before/after output) x payload/chunking (plus explicit statuses, forwarding handlers, reused write buffers, io.WriteString) and checks each response against the bytes the handlers logged; every 5th ServeHTTP cell runs behind a real net/http server and is read by an http.Client.",
@@ -37,7 +37,7 @@ CHECKS = {
          "Random histories over Add/Remove/Route/RemoveRoute/Handle on colliding root paths (also 33/70 services, once per process a container on http.DefaultServeMux); after every operation a fresh container is built from the model and both must answer a derived probe set identically via ServeHTTP and Dispatch; where an executable reference of the ServeMux registration policy says the framework owns a clean URL, ServeHTTP and Dispatch of the history-built container must answer alike; Add must never panic/exit and every registration call runs under a goroutine-state watchdog.",
          "Histories never add duplicate roots (library exits by contract).", "DESIGN §6 C11"),
  "C12": ("exploration", "Go race detector + porcupine linearizability check of client-boundary histories (per-key register over generations) + stable-probe and blocked-goroutine monitors",
-         "Mutator goroutines (4, 12 or 20) Add/Remove services and Route/RemoveRoute routes with unique generations while reader goroutines probe; race reports with a go-restful frame, non-linearizable per-key histories, wrong stable answers, answers that ran a filter chain other than their own, panics and state-detected deadlocks are violations.",
+         "Mutator goroutines (4, 12 or 20) Add/Remove services and Route/RemoveRoute routes with unique generations while reader goroutines probe (GET answers, and the Allow header of 405 answers on a key whose route changes its method with every generation); race reports with a go-restful frame, non-linearizable per-key histories, wrong stable answers, answers that ran a filter chain other than their own, panics and state-detected deadlocks are violations.",
          "Schedules are not reproducible; evidence reports overlapping operations actually observed.", "DESIGN §6 C12"),
  "C13": ("exploration", "instrumenting CompressorProvider ledger + stale-reference trip-wire + porcupine per-object mutex history + release-storm blocked-goroutine detector; race detector on",
          "Wraps sync.Pool, bounded(0,1,2,8) and a custom provider; checks exclusive ownership, exactly-once release, no use after release, no blocking (state-based), and that concurrent encoded responses / gzip request bodies decode to their own payload.",
